@@ -1,3 +1,443 @@
+(* Proofs/MbiProofs.v -- lemmas about Model/MbiModel.v (C01). *)
 From Coq Require Import ZArith NArith List Bool Lia.
 Require Import Value Bytes BytesProofs MbiMixinModel GenMbi MbiModel.
 Import ListNotations.
+Ltac Zify.zify_post_hook ::= Z.to_euclidean_division_equations.
+Local Open Scope Z_scope.
+
+(* ------------------------------------------------------------------ lists: nth of a splice *)
+Lemma nth_firstn' {A} (l : list A) n i (x : A) : nth i (firstn n l) x = if (i <? n)%nat then nth i l x else x.
+Proof.
+  revert n i; induction l as [|a l IH]; intros [|n] [|i]; simpl; try reflexivity.
+  - destruct (S i <? S n)%nat; reflexivity.
+  - rewrite IH. reflexivity.
+Qed.
+Lemma nth_skipn' {A} (l : list A) n i (x : A) : nth i (skipn n l) x = nth (n + i) l x.
+Proof.
+  revert l; induction n as [|n IH]; intros l; simpl; [reflexivity|].
+  destruct l as [|a l]; [destruct i; reflexivity|]. apply IH.
+Qed.
+Lemma nth_splice {A} (buf w : list A) off i (x : A) :
+  (off + length w <= length buf)%nat ->
+  nth i (splice buf off w) x =
+  if (i <? off)%nat then nth i buf x else if (i <? off + length w)%nat then nth (i - off) w x else nth i buf x.
+Proof.
+  intros H. unfold splice.
+  destruct (i <? off)%nat eqn:E1.
+  - apply Nat.ltb_lt in E1. rewrite app_nth1 by (rewrite firstn_length; lia). now rewrite nth_firstn', (proj2 (Nat.ltb_lt _ _) E1).
+  - apply Nat.ltb_ge in E1. rewrite app_nth2 by (rewrite firstn_length; lia).
+    rewrite firstn_length. replace (Nat.min off (length buf)) with off by lia.
+    destruct (i <? off + length w)%nat eqn:E2.
+    + apply Nat.ltb_lt in E2. now rewrite app_nth1 by lia.
+    + apply Nat.ltb_ge in E2. rewrite app_nth2 by lia. rewrite nth_skipn'. f_equal. lia.
+Qed.
+
+Lemma wr_length off w d : (off + length w <= length d)%nat -> length (wr off w d) = length d.
+Proof. apply splice_length. Qed.
+
+Lemma nth_wr off w d i : (off + length w <= length d)%nat ->
+  nth i (wr off w d) 0%N =
+  if (i <? off)%nat then nth i d 0%N else if (i <? off + length w)%nat then nth (i - off) w 0%N else nth i d 0%N.
+Proof. apply nth_splice. Qed.
+
+Lemma list_eq_nth (a b : list N) : length a = length b -> (forall i, (i < length a)%nat -> nth i a 0%N = nth i b 0%N) -> a = b.
+Proof. intros H1 H2. apply (nth_ext a b 0%N 0%N H1 H2). Qed.
+
+(* overwriting the same place twice / two different places in either order *)
+Lemma wr_wr_same off w1 w2 d : length w1 = length w2 -> (off + length w1 <= length d)%nat ->
+  wr off w2 (wr off w1 d) = wr off w2 d.
+Proof.
+  intros Hl H. apply list_eq_nth.
+  - rewrite !wr_length; rewrite ?wr_length; lia.
+  - intros i _. rewrite !nth_wr by (rewrite ?wr_length; lia).
+    destruct (i <? off)%nat eqn:E1; [reflexivity|]. destruct (i <? off + length w2)%nat eqn:E2; [reflexivity|].
+    replace (i <? off + length w1)%nat with false; [reflexivity|]. symmetry. apply Nat.ltb_ge. apply Nat.ltb_ge in E2. lia.
+Qed.
+
+Lemma wr_wr_comm o1 w1 o2 w2 d :
+  (o1 + length w1 <= o2)%nat \/ (o2 + length w2 <= o1)%nat ->
+  (o1 + length w1 <= length d)%nat -> (o2 + length w2 <= length d)%nat ->
+  wr o1 w1 (wr o2 w2 d) = wr o2 w2 (wr o1 w1 d).
+Proof.
+  intros Hd H1 H2. apply list_eq_nth.
+  - rewrite !wr_length; rewrite ?wr_length; lia.
+  - intros i _. rewrite !nth_wr by (rewrite ?wr_length; lia).
+    destruct (i <? o1)%nat eqn:E1; destruct (i <? o2)%nat eqn:E2;
+      destruct (i <? o1 + length w1)%nat eqn:E3; destruct (i <? o2 + length w2)%nat eqn:E4; try reflexivity;
+      repeat match goal with H : (_ <? _)%nat = true |- _ => apply Nat.ltb_lt in H | H : (_ <? _)%nat = false |- _ => apply Nat.ltb_ge in H end; lia.
+Qed.
+
+Lemma u32_length v w : u32 v = Ok w -> length w = 4%nat.
+Proof. unfold u32. destruct (_ && _); intros H; [|discriminate]. injection H as <-. reflexivity. Qed.
+
+Lemma u32_value v w : u32 v = Ok w -> Z.of_N (le_dec w) = v /\ 0 <= v < 4294967296.
+Proof.
+  unfold u32. destruct ((0 <=? v) && (v <? 4294967296)) eqn:E; intros H; [|discriminate].
+  assert (Hw : w = le_enc 4 (Z.to_N v)) by (now inversion H). subst w. clear H.
+  apply andb_true_iff in E as [E1 E2]. apply Z.leb_le in E1. apply Z.ltb_lt in E2.
+  rewrite le_dec_enc_small; [ split; [apply Z2N.id|]; lia |].
+  change (2 ^ (8 * N.of_nat 4))%N with 4294967296%N. lia.
+Qed.
+
+Lemma rd32_wr_same off w d : length w = 4%nat -> (off <= length d)%nat -> rd32 off (wr off w d) = Z.of_N (le_dec w).
+Proof.
+  intros Hw H. unfold rd32, wr. f_equal. f_equal.
+  pose proof (splice_slice d w off H) as S. unfold slice in S. rewrite Hw in S.
+  replace (off + 4 - off)%nat with 4%nat in S by lia. exact S.
+Qed.
+
+Lemma firstn_skipn_nth_eq (a b : list N) off n :
+  length a = length b -> (forall i, (off <= i < off + n)%nat -> nth i a 0%N = nth i b 0%N) ->
+  firstn n (skipn off a) = firstn n (skipn off b).
+Proof.
+  intros Hl H. apply list_eq_nth.
+  - rewrite !firstn_length, !skipn_length. lia.
+  - intros i Hi. rewrite firstn_length, skipn_length in Hi.
+    rewrite !nth_firstn'. destruct (i <? n)%nat eqn:E; [|reflexivity]. apply Nat.ltb_lt in E.
+    rewrite !nth_skipn'. apply H. lia.
+Qed.
+
+Lemma rd32_wr_other o' off w d : (off + length w <= length d)%nat ->
+  (o' + 4 <= off)%nat \/ (off + length w <= o')%nat -> rd32 o' (wr off w d) = rd32 o' d.
+Proof.
+  intros H Hd. unfold rd32. f_equal. f_equal. apply firstn_skipn_nth_eq.
+  - now apply wr_length.
+  - intros i Hi. rewrite nth_wr by assumption.
+    destruct (i <? off)%nat eqn:E1; [reflexivity|]. destruct (i <? off + length w)%nat eqn:E2; [|reflexivity].
+    apply Nat.ltb_ge in E1. apply Nat.ltb_lt in E2. lia.
+Qed.
+
+(* ------------------------------------------------------------------ IVT words *)
+Lemma off_len_eq : OFF_LEN = 32%nat. Proof. reflexivity. Qed.
+Lemma off_flags_eq : OFF_FLAGS = 36%nat. Proof. reflexivity. Qed.
+Lemma off_crc_eq : OFF_CRC = 40%nat. Proof. reflexivity. Qed.
+Lemma off_load_eq : OFF_LOAD = 52%nat. Proof. reflexivity. Qed.
+
+Definition ivt_total (c : mbi_class) (total : Z) : Z :=
+  match provider c SUpdateIvt with Some MixinIvtZeroTotalLength => 0 | _ => total end.
+Definition ivt_crc (c : mbi_class) (cc : Z) : Z := if c_type c =? 0 then 0 else cc.
+Definition ivt_load (c : mbi_class) (x : mbi) : Z := if has_attr c ALoadAddress then m_load x else 0.
+
+Lemma update_ivt_inv c x app total cc app' :
+  update_ivt c x app total cc = Ok app' ->
+  exists wf wt wc wl,
+    u32 (create_flags c x) = Ok wf /\ u32 (ivt_total c total) = Ok wt /\ u32 (ivt_crc c cc) = Ok wc /\
+    u32 (ivt_load c x) = Ok wl /\
+    app' = wr 52 wl (wr 40 wc (wr 32 wt (wr 36 wf app))).
+Proof.
+  unfold update_ivt. fold (ivt_total c total) (ivt_crc c cc) (ivt_load c x).
+  destruct (u32 (create_flags c x)) as [wf|] eqn:E1; simpl; [|discriminate].
+  destruct (u32 (ivt_total c total)) as [wt|] eqn:E2; simpl; [|discriminate].
+  destruct (u32 (ivt_crc c cc)) as [wc|] eqn:E3; simpl; [|discriminate].
+  destruct (u32 (ivt_load c x)) as [wl|] eqn:E4; simpl; [|discriminate].
+  intros H; inversion H; subst. exists wf, wt, wc, wl. repeat split; try assumption.
+Qed.
+
+Lemma wr4_lengths d o1 w1 o2 w2 o3 w3 o4 w4 :
+  length w1 = 4%nat -> length w2 = 4%nat -> length w3 = 4%nat -> length w4 = 4%nat ->
+  (o1 + 4 <= length d)%nat -> (o2 + 4 <= length d)%nat -> (o3 + 4 <= length d)%nat -> (o4 + 4 <= length d)%nat ->
+  length (wr o1 w1 d) = length d /\ length (wr o2 w2 (wr o1 w1 d)) = length d /\
+  length (wr o3 w3 (wr o2 w2 (wr o1 w1 d))) = length d /\
+  length (wr o4 w4 (wr o3 w3 (wr o2 w2 (wr o1 w1 d)))) = length d.
+Proof.
+  intros H1 H2 H3 H4 L1 L2 L3 L4.
+  assert (A1 : length (wr o1 w1 d) = length d) by (apply wr_length; lia).
+  assert (A2 : length (wr o2 w2 (wr o1 w1 d)) = length d) by (rewrite wr_length; lia).
+  assert (A3 : length (wr o3 w3 (wr o2 w2 (wr o1 w1 d))) = length d) by (rewrite wr_length; lia).
+  assert (A4 : length (wr o4 w4 (wr o3 w3 (wr o2 w2 (wr o1 w1 d)))) = length d) by (rewrite wr_length; lia).
+  auto.
+Qed.
+
+Ltac decide_ltb :=
+  repeat match goal with |- context [(?a <? ?b)%nat] => let E := fresh "E" in destruct (a <? b)%nat eqn:E;
+         [apply Nat.ltb_lt in E | apply Nat.ltb_ge in E] end.
+
+Lemma ivt_chain_lengths app wf wt wc wl :
+  length wf = 4%nat -> length wt = 4%nat -> length wc = 4%nat -> length wl = 4%nat -> (56 <= length app)%nat ->
+  length (wr 36 wf app) = length app /\ length (wr 32 wt (wr 36 wf app)) = length app /\
+  length (wr 40 wc (wr 32 wt (wr 36 wf app))) = length app /\
+  length (wr 52 wl (wr 40 wc (wr 32 wt (wr 36 wf app)))) = length app.
+Proof.
+  intros H1 H2 H3 H4 L.
+  assert (A1 : length (wr 36 wf app) = length app) by (apply wr_length; lia).
+  assert (A2 : length (wr 32 wt (wr 36 wf app)) = length app) by (rewrite wr_length; lia).
+  assert (A3 : length (wr 40 wc (wr 32 wt (wr 36 wf app))) = length app) by (rewrite wr_length; lia).
+  assert (A4 : length (wr 52 wl (wr 40 wc (wr 32 wt (wr 36 wf app)))) = length app) by (rewrite wr_length; lia).
+  auto.
+Qed.
+
+Lemma update_ivt_length c x app total cc app' :
+  (56 <= length app)%nat -> update_ivt c x app total cc = Ok app' -> length app' = length app.
+Proof.
+  intros L H. apply update_ivt_inv in H as (wf & wt & wc & wl & H1 & H2 & H3 & H4 & ->).
+  apply u32_length in H1, H2, H3, H4.
+  now destruct (ivt_chain_lengths app wf wt wc wl H1 H2 H3 H4 L) as (_ & _ & _ & ->).
+Qed.
+
+Lemma ivt_words c x app total cc app' :
+  (56 <= length app)%nat -> update_ivt c x app total cc = Ok app' ->
+  rd32 OFF_LEN app' = ivt_total c total /\ rd32 OFF_FLAGS app' = create_flags c x /\
+  rd32 OFF_CRC app' = ivt_crc c cc /\ rd32 OFF_LOAD app' = ivt_load c x.
+Proof.
+  intros L H. apply update_ivt_inv in H as (wf & wt & wc & wl & H1 & H2 & H3 & H4 & ->).
+  pose proof (u32_length _ _ H1) as L1. pose proof (u32_length _ _ H2) as L2.
+  pose proof (u32_length _ _ H3) as L3. pose proof (u32_length _ _ H4) as L4.
+  apply u32_value in H1 as [V1 _]. apply u32_value in H2 as [V2 _]. apply u32_value in H3 as [V3 _]. apply u32_value in H4 as [V4 _].
+  rewrite off_len_eq, off_flags_eq, off_crc_eq, off_load_eq.
+  destruct (ivt_chain_lengths app wf wt wc wl L1 L2 L3 L4 L) as (A1 & A2 & A3 & A4).
+  repeat split.
+  - rewrite rd32_wr_other by lia. rewrite rd32_wr_other by lia. rewrite rd32_wr_same by lia. exact V2.
+  - rewrite rd32_wr_other by lia. rewrite rd32_wr_other by lia. rewrite rd32_wr_other by lia.
+    rewrite rd32_wr_same by lia. exact V1.
+  - rewrite rd32_wr_other by lia. rewrite rd32_wr_same by lia. exact V3.
+  - rewrite rd32_wr_same by lia. exact V4.
+Qed.
+
+Lemma ivt_untouched c x app total cc app' :
+  (56 <= length app)%nat -> update_ivt c x app total cc = Ok app' ->
+  length app' = length app /\
+  forall i, ~ (32 <= i < 44)%nat -> ~ (52 <= i < 56)%nat -> nth i app' 0%N = nth i app 0%N.
+Proof.
+  intros L H. split; [eapply update_ivt_length; eassumption|].
+  apply update_ivt_inv in H as (wf & wt & wc & wl & H1 & H2 & H3 & H4 & ->).
+  apply u32_length in H1, H2, H3, H4. intros i N1 N2.
+  destruct (ivt_chain_lengths app wf wt wc wl H1 H2 H3 H4 L) as (A1 & A2 & A3 & A4).
+  rewrite nth_wr by lia. rewrite nth_wr by lia. rewrite nth_wr by lia. rewrite nth_wr by lia. rewrite H1, H2, H3, H4.
+  repeat match goal with |- context [(?a <? ?b)%nat] => let E := fresh "E" in destruct (a <? b)%nat eqn:E;
+         [apply Nat.ltb_lt in E | apply Nat.ltb_ge in E] end; try reflexivity; lia.
+Qed.
+
+Lemma zeros_length n : length (zeros n) = n. Proof. apply repeat_length. Qed.
+
+(* clean_ivt o update_ivt = clean_ivt : the four words are the only thing update_ivt changes *)
+Lemma nth_clean_ivt d i : (56 <= length d)%nat ->
+  nth i (clean_ivt d) 0%N = if ((32 <=? i) && (i <? 44) || (52 <=? i) && (i <? 56))%nat then 0%N else nth i d 0%N.
+Proof.
+  intros L. unfold clean_ivt. rewrite off_len_eq, off_flags_eq, off_crc_eq, off_load_eq.
+  destruct (wr4_lengths d 32 (zeros 4) 36 (zeros 4) 40 (zeros 4) 52 (zeros 4)) as (A1 & A2 & A3 & A4);
+    try apply zeros_length; try lia.
+  rewrite nth_wr by (rewrite zeros_length; lia). rewrite nth_wr by (rewrite zeros_length; lia).
+  rewrite nth_wr by (rewrite zeros_length; lia). rewrite nth_wr by (rewrite zeros_length; lia).
+  rewrite !zeros_length.
+  assert (Z : forall j, (j < 4)%nat -> nth j (zeros 4) 0%N = 0%N) by (intros [|[|[|[|j]]]] Hj; try reflexivity; lia).
+  destruct (32 <=? i)%nat eqn:B1; destruct (i <? 44)%nat eqn:B2; destruct (52 <=? i)%nat eqn:B3; destruct (i <? 56)%nat eqn:B4;
+    simpl; repeat match goal with H : (_ <=? _)%nat = true |- _ => apply Nat.leb_le in H
+                          | H : (_ <=? _)%nat = false |- _ => apply Nat.leb_gt in H
+                          | H : (_ <? _)%nat = true |- _ => apply Nat.ltb_lt in H
+                          | H : (_ <? _)%nat = false |- _ => apply Nat.ltb_ge in H end;
+    decide_ltb; try reflexivity; try lia; apply Z; lia.
+Qed.
+
+Lemma clean_ivt_length app : (56 <= length app)%nat -> length (clean_ivt app) = length app.
+Proof.
+  intros L. unfold clean_ivt. rewrite off_len_eq, off_flags_eq, off_crc_eq, off_load_eq.
+  destruct (wr4_lengths app 32 (zeros 4) 36 (zeros 4) 40 (zeros 4) 52 (zeros 4)) as (A1 & A2 & A3 & A4);
+    try apply zeros_length; try lia.
+Qed.
+
+Lemma clean_update c x app total cc app' :
+  (56 <= length app)%nat -> update_ivt c x app total cc = Ok app' -> clean_ivt app' = clean_ivt app.
+Proof.
+  intros L H. pose proof (ivt_untouched _ _ _ _ _ _ L H) as [Hl Hn].
+  apply list_eq_nth.
+  - rewrite !clean_ivt_length; lia.
+  - intros i _. rewrite !nth_clean_ivt by lia.
+    destruct (32 <=? i)%nat eqn:B1; destruct (i <? 44)%nat eqn:B2; destruct (52 <=? i)%nat eqn:B3; destruct (i <? 56)%nat eqn:B4;
+      simpl; try reflexivity;
+      repeat match goal with H : (_ <=? _)%nat = true |- _ => apply Nat.leb_le in H
+                          | H : (_ <=? _)%nat = false |- _ => apply Nat.leb_gt in H
+                          | H : (_ <? _)%nat = true |- _ => apply Nat.ltb_lt in H
+                          | H : (_ <? _)%nat = false |- _ => apply Nat.ltb_ge in H end; apply Hn; lia.
+Qed.
+
+(* update_ivt does not depend on what the four words held before *)
+Lemma update_clean c x app total cc :
+  (56 <= length app)%nat -> update_ivt c x (clean_ivt app) total cc = update_ivt c x app total cc.
+Proof.
+  intros L. unfold update_ivt. fold (ivt_total c total) (ivt_crc c cc) (ivt_load c x).
+  destruct (u32 (create_flags c x)) as [wf|] eqn:E1; simpl; [|reflexivity].
+  destruct (u32 (ivt_total c total)) as [wt|] eqn:E2; simpl; [|reflexivity].
+  destruct (u32 (ivt_crc c cc)) as [wc|] eqn:E3; simpl; [|reflexivity].
+  destruct (u32 (ivt_load c x)) as [wl|] eqn:E4; simpl; [|reflexivity].
+  f_equal. apply u32_length in E1, E2, E3, E4.
+  rewrite off_len_eq, off_flags_eq, off_crc_eq, off_load_eq.
+  pose proof (clean_ivt_length app L) as CL.
+  destruct (wr4_lengths app 36 wf 32 wt 40 wc 52 wl) as (A1 & A2 & A3 & A4); try assumption; try lia.
+  destruct (wr4_lengths (clean_ivt app) 36 wf 32 wt 40 wc 52 wl) as (B1 & B2 & B3 & B4); try assumption; try lia.
+  apply list_eq_nth; [lia|].
+  intros i _.
+  rewrite nth_wr by lia. rewrite nth_wr by lia. rewrite nth_wr by lia. rewrite nth_wr by lia.
+  rewrite (nth_wr 52 wl (wr 40 wc (wr 32 wt (wr 36 wf app)))) by lia. rewrite (nth_wr 40 wc (wr 32 wt (wr 36 wf app))) by lia.
+  rewrite (nth_wr 32 wt (wr 36 wf app)) by lia. rewrite (nth_wr 36 wf app) by lia.
+  rewrite E1, E2, E3, E4. rewrite nth_clean_ivt by lia.
+  decide_ltb; try reflexivity; try lia;
+  repeat match goal with |- context [(?a <=? ?b)%nat] => let E := fresh "C" in destruct (a <=? b)%nat eqn:E;
+         [apply Nat.leb_le in E | apply Nat.leb_gt in E] end; simpl; try reflexivity; lia.
+Qed.
+
+(* ------------------------------------------------------------------ image flags (IVT word 0x24) *)
+Lemma lor_add_hi a b k : 0 <= k -> 0 <= a < 2 ^ k -> 0 <= b -> Z.lor a (Z.shiftl b k) = a + b * 2 ^ k.
+Proof.
+  intros Hk Ha Hb. rewrite Z.shiftl_mul_pow2 by assumption.
+  assert (L : Z.land a (b * 2 ^ k) = 0).
+  { rewrite <- (Z.mod_small a (2 ^ k)) by assumption. rewrite <- Z.land_ones by assumption.
+    rewrite <- Z.land_assoc. rewrite (Z.land_comm (Z.ones k)). rewrite Z.land_ones by assumption.
+    rewrite Z.mod_mul by lia. apply Z.land_0_r. }
+  rewrite <- Z.lxor_lor by assumption. symmetry. now apply Z.add_nocarry_lxor.
+Qed.
+
+Definition zrange (n : nat) : list Z := map Z.of_nat (seq 0 n).
+Lemma in_zrange z n : 0 <= z < Z.of_nat n -> In z (zrange n).
+Proof.
+  intros H. unfold zrange. rewrite <- (Z2Nat.id z) by lia. apply in_map. apply in_seq. lia.
+Qed.
+
+Definition low_flags (ty : Z) (htz : bool) (tag : Z) (hs : bool) (sb : Z) (hw ks tb vf : bool) : Z :=
+  let f0 := ty in
+  let f1 := if htz then Z.lor f0 (Z.shiftl tag 13) else f0 in
+  let f2 := if hs then Z.lor f1 (Z.shiftl sb 6) else f1 in
+  let f3 := if hw then Z.lor f2 4096 else f2 in
+  let f4 := if ks then Z.lor f3 32768 else f3 in
+  let f5 := if tb then Z.lor f4 2048 else f4 in
+  if vf then Z.lor f5 1024 else f5.
+Definition low_sum (ty : Z) (htz : bool) (tag : Z) (hs : bool) (sb : Z) (hw ks tb vf : bool) : Z :=
+  ty + (if htz then 8192 * tag else 0) + (if hs then 64 * sb else 0) + (if hw then 4096 else 0) +
+  (if ks then 32768 else 0) + (if tb then 2048 else 0) + (if vf then 1024 else 0).
+Definition bools : list bool := [true; false].
+Definition low_check : bool :=
+  forallb (fun ty => forallb (fun tag => forallb (fun sb => forallb (fun htz => forallb (fun hs => forallb (fun hw =>
+  forallb (fun ks => forallb (fun tb => forallb (fun vf =>
+    low_flags ty htz tag hs sb hw ks tb vf =? low_sum ty htz tag hs sb hw ks tb vf)
+  bools) bools) bools) bools) bools) bools) (zrange 4)) (zrange 3)) (zrange 64).
+Lemma low_check_true : low_check = true. Proof. vm_compute. reflexivity. Qed.
+Lemma in_bools b : In b bools. Proof. destruct b; simpl; auto. Qed.
+
+Lemma low_flags_sum ty htz tag hs sb hw ks tb vf :
+  0 <= ty < 64 -> 0 <= tag < 3 -> 0 <= sb < 4 ->
+  low_flags ty htz tag hs sb hw ks tb vf = low_sum ty htz tag hs sb hw ks tb vf.
+Proof.
+  intros H1 H2 H3. pose proof low_check_true as C. unfold low_check in C.
+  rewrite forallb_forall in C. specialize (C ty (in_zrange ty 64 H1)).
+  rewrite forallb_forall in C. specialize (C tag (in_zrange tag 3 H2)).
+  rewrite forallb_forall in C. specialize (C sb (in_zrange sb 4 H3)).
+  rewrite forallb_forall in C. specialize (C htz (in_bools _)).
+  rewrite forallb_forall in C. specialize (C hs (in_bools _)).
+  rewrite forallb_forall in C. specialize (C hw (in_bools _)).
+  rewrite forallb_forall in C. specialize (C ks (in_bools _)).
+  rewrite forallb_forall in C. specialize (C tb (in_bools _)).
+  rewrite forallb_forall in C. specialize (C vf (in_bools _)).
+  now apply Z.eqb_eq in C.
+Qed.
+
+Definition has_table (x : mbi) : bool := match m_table x with Some _ => true | None => false end.
+Definition ver_flag (c : mbi_class) (x : mbi) : bool := has_attr c AImageVersion && negb (m_imgver x =? 0).
+Definition flags_low (c : mbi_class) (x : mbi) : Z :=
+  low_flags (c_type c) (has_tz c) (tz_tag (m_tz x)) (has_attr c AImageSubtype) (m_subtype x)
+            (has_attr c AHwKey && m_hwkey x) (has_attr c AKeyStore && truthy_ks (m_ks x))
+            (has_attr c AAppTable && has_table x) (ver_flag c x).
+
+Lemma create_flags_split c x :
+  create_flags c x = if ver_flag c x then Z.lor (flags_low c x) (Z.shiftl (m_imgver x) 16) else flags_low c x.
+Proof.
+  unfold create_flags, flags_low, low_flags, ver_flag, has_table.
+  destruct (has_attr c AImageVersion && negb (m_imgver x =? 0)); reflexivity.
+Qed.
+
+Lemma tz_tag_range t : 0 <= tz_tag t < 3. Proof. destruct t; cbv; split; congruence. Qed.
+
+(* the flags word as a sum of disjoint fields *)
+Lemma create_flags_sum c x :
+  0 <= c_type c < 64 -> 0 <= m_subtype x < 4 -> 0 <= m_imgver x ->
+  create_flags c x =
+  low_sum (c_type c) (has_tz c) (tz_tag (m_tz x)) (has_attr c AImageSubtype) (m_subtype x)
+          (has_attr c AHwKey && m_hwkey x) (has_attr c AKeyStore && truthy_ks (m_ks x))
+          (has_attr c AAppTable && has_table x) (ver_flag c x)
+  + (if ver_flag c x then m_imgver x * 65536 else 0).
+Proof.
+  intros H1 H2 H3. rewrite create_flags_split. unfold flags_low.
+  rewrite low_flags_sum by (try assumption; apply tz_tag_range).
+  destruct (ver_flag c x); [|lia].
+  rewrite lor_add_hi; [reflexivity | lia | | assumption].
+  pose proof (tz_tag_range (m_tz x)). unfold low_sum.
+  destruct (has_tz c), (has_attr c AImageSubtype), (has_attr c AHwKey && m_hwkey x),
+    (has_attr c AKeyStore && truthy_ks (m_ks x)), (has_attr c AAppTable && has_table x); lia.
+Qed.
+
+Lemma land_pow2 v k : 0 <= k -> Z.land v (2 ^ k) = ((v / 2 ^ k) mod 2) * 2 ^ k.
+Proof.
+  intros Hk. apply Z.bits_inj'. intros n Hn. rewrite Z.land_spec, Z.pow2_bits_eqb by assumption.
+  rewrite <- Z.shiftl_mul_pow2, <- Z.shiftr_div_pow2 by assumption.
+  change 2 with (2 ^ 1) at 1. rewrite <- Z.land_ones by lia.
+  rewrite Z.shiftl_spec by assumption.
+  destruct (Z.eqb_spec k n) as [->|Ne].
+  - rewrite andb_true_r, Z.land_spec, Z.shiftr_spec by lia. replace (n - n) with 0 by lia.
+    rewrite Z.ones_spec_low by lia. now rewrite andb_true_r.
+  - rewrite andb_false_r. symmetry. destruct (Z.ltb_spec n k) as [Lt|Ge]; [apply Z.testbit_neg_r; lia|].
+    rewrite Z.land_spec, Z.ones_spec_high by lia. apply andb_false_r.
+Qed.
+
+(* what the parser computes from the word: every field comes back *)
+Lemma flags_decode_lemma c x :
+  0 <= c_type c < 64 -> 0 <= m_subtype x < 4 -> 0 <= m_imgver x < 65536 ->
+  let f := create_flags c x in
+  0 <= f < 4294967296 /\
+  Z.land f G_IVT_IMAGE_FLAGS_IMAGE_TYPE_MASK = c_type c /\
+  Z.land (Z.shiftr f G_IVT_IMAGE_FLAGS_TZ_TYPE_SHIFT) G_IVT_IMAGE_FLAGS_TZ_TYPE_MASK = (if has_tz c then tz_tag (m_tz x) else 0) /\
+  Z.land (Z.shiftr f G_IVT_IMAGE_FLAGS_SUB_TYPE_SHIFT) G_IVT_IMAGE_FLAGS_SUB_TYPE_MASK = (if has_attr c AImageSubtype then m_subtype x else 0) /\
+  negb (Z.land f G_HW_USER_KEY_EN_FLAG =? 0) = (has_attr c AHwKey && m_hwkey x) /\
+  negb (Z.land f G_KEY_STORE_FLAG =? 0) = (has_attr c AKeyStore && truthy_ks (m_ks x)) /\
+  negb (Z.land f G_RELOC_TABLE_FLAG =? 0) = (has_attr c AAppTable && has_table x) /\
+  (if negb (Z.land f G_BOOT_IMAGE_VERSION_FLAG =? 0)
+   then Z.land (Z.shiftr f G_IVT_IMAGE_FLAGS_IMG_VER_SHIFT) G_IVT_IMAGE_FLAGS_IMG_VER_MASK else 0)
+  = (if has_attr c AImageVersion then m_imgver x else 0).
+Proof.
+  intros H1 H2 H3 f. subst f. rewrite create_flags_sum by lia.
+  pose proof (tz_tag_range (m_tz x)) as T.
+  change G_IVT_IMAGE_FLAGS_IMAGE_TYPE_MASK with (Z.ones 6). change G_IVT_IMAGE_FLAGS_TZ_TYPE_MASK with (Z.ones 2).
+  change G_IVT_IMAGE_FLAGS_SUB_TYPE_MASK with (Z.ones 2). change G_IVT_IMAGE_FLAGS_IMG_VER_MASK with (Z.ones 16).
+  change G_IVT_IMAGE_FLAGS_TZ_TYPE_SHIFT with 13. change G_IVT_IMAGE_FLAGS_SUB_TYPE_SHIFT with 6.
+  change G_IVT_IMAGE_FLAGS_IMG_VER_SHIFT with 16.
+  change G_HW_USER_KEY_EN_FLAG with (2 ^ 12). change G_KEY_STORE_FLAG with (2 ^ 15).
+  change G_RELOC_TABLE_FLAG with (2 ^ 11). change G_BOOT_IMAGE_VERSION_FLAG with (2 ^ 10).
+  rewrite !land_pow2 by lia. rewrite !Z.land_ones by lia. rewrite !Z.shiftr_div_pow2 by lia.
+  change (2 ^ 6) with 64. change (2 ^ 2) with 4. change (2 ^ 16) with 65536. change (2 ^ 13) with 8192.
+  change (2 ^ 12) with 4096. change (2 ^ 15) with 32768. change (2 ^ 11) with 2048. change (2 ^ 10) with 1024.
+  set (hw := has_attr c AHwKey && m_hwkey x). set (ks := has_attr c AKeyStore && truthy_ks (m_ks x)).
+  set (tb := has_attr c AAppTable && has_table x).
+  set (tzv := if has_tz c then tz_tag (m_tz x) else 0). set (sbv := if has_attr c AImageSubtype then m_subtype x else 0).
+  set (vv := if has_attr c AImageVersion then m_imgver x else 0).
+  assert (Rt : 0 <= tzv < 3) by (subst tzv; destruct (has_tz c); lia).
+  assert (Rs : 0 <= sbv < 4) by (subst sbv; destruct (has_attr c AImageSubtype); lia).
+  assert (Rv : 0 <= vv < 65536) by (subst vv; destruct (has_attr c AImageVersion); lia).
+  assert (E : low_sum (c_type c) (has_tz c) (tz_tag (m_tz x)) (has_attr c AImageSubtype) (m_subtype x) hw ks tb (ver_flag c x)
+              + (if ver_flag c x then m_imgver x * 65536 else 0)
+              = c_type c + 8192 * tzv + 64 * sbv + 4096 * Z.b2z hw + 32768 * Z.b2z ks + 2048 * Z.b2z tb
+                + 1024 * Z.b2z (negb (vv =? 0)) + 65536 * vv).
+  { unfold low_sum, ver_flag. subst tzv sbv vv.
+    assert (Vq : (has_attr c AImageVersion && negb (m_imgver x =? 0))
+                 = negb ((if has_attr c AImageVersion then m_imgver x else 0) =? 0))
+      by (destruct (has_attr c AImageVersion); reflexivity).
+    rewrite Vq. clear Vq.
+    destruct (has_tz c), (has_attr c AImageSubtype), hw, ks, tb; cbn [Z.b2z];
+      (destruct (has_attr c AImageVersion);
+       [ destruct (m_imgver x =? 0) eqn:V; cbn [negb Z.b2z]; [apply Z.eqb_eq in V|]; lia
+       | change (0 =? 0) with true; cbn [negb Z.b2z]; lia ]). }
+  rewrite E. clear E.
+  set (vb := negb (vv =? 0)).
+  assert (Vb : vb = true <-> vv <> 0) by (subst vb; destruct (Z.eqb_spec vv 0); simpl; split; congruence).
+  assert (BR : forall b, 0 <= Z.b2z b <= 1) by (intros [|]; simpl; lia).
+  pose proof (BR hw) as B1. pose proof (BR ks) as B2. pose proof (BR tb) as B3. pose proof (BR vb) as B4.
+  repeat split; try lia.
+  - destruct hw; cbn [Z.b2z] in *;
+      match goal with |- negb (?e =? 0) = _ => destruct (Z.eqb_spec e 0) as [Q|Q]; simpl; try reflexivity; exfalso; lia end.
+  - destruct ks; cbn [Z.b2z] in *;
+      match goal with |- negb (?e =? 0) = _ => destruct (Z.eqb_spec e 0) as [Q|Q]; simpl; try reflexivity; exfalso; lia end.
+  - destruct tb; cbn [Z.b2z] in *;
+      match goal with |- negb (?e =? 0) = _ => destruct (Z.eqb_spec e 0) as [Q|Q]; simpl; try reflexivity; exfalso; lia end.
+  - destruct vb eqn:Vq; cbn [Z.b2z] in *.
+    + match goal with |- (if negb (?e =? 0) then _ else _) = _ => destruct (Z.eqb_spec e 0) as [Q|Q]; simpl end;
+        [exfalso; lia | lia].
+    + assert (V0 : vv = 0).
+      { destruct (Z.eq_dec vv 0) as [|Ne]; [assumption|]. apply Vb in Ne. discriminate. }
+      match goal with |- (if negb (?e =? 0) then _ else _) = _ => destruct (Z.eqb_spec e 0) as [Q|Q]; simpl end; lia.
+Qed.
